@@ -49,6 +49,7 @@ structure FieldOk (B : Base) (fd : FieldDef) : Prop where
   /-- bool: exactly one range of one bit -/
   bool_one : fd.fieldTypeSize = 0 → ∃ lo, fd.ranges = [⟨lo, 1⟩]
   bool_iff : fd.fieldTypeSize = 0 ↔ fd.fromDataType = some 0
+  bool_regular : fd.fieldTypeSize = 0 → fd.useRegularInt = true ∧ fd.unsignedFieldType = none ∧ fd.custom = none
   /-- the type width is the number of selected bits -/
   width_eq : fd.fieldTypeSize ≠ 0 → fd.totalBits = fd.fieldTypeSize
   total_le : fd.totalBits ≤ 128
